@@ -88,9 +88,10 @@ func (c *c17Case) run() error {
 		cl, idx int
 	}
 	var late []lateView
-	// delegate node that client cl puts into the pp of what it sends (clients 1, 2 mod 3 only)
+	// delegate node that client cl puts into the pp of what it sends (every other client of each transport kind:
+	// the kinds go round in threes)
 	ppOf := func(cl int) lime.Node {
-		if cl%3 == 0 {
+		if (cl/3)%2 == 0 {
 			return lime.Node{}
 		}
 		return lime.Node{Identity: lime.Identity{Name: fmt.Sprintf("dlg%d", cl), Domain: "verif.test"}, Instance: "d"}
